@@ -21,6 +21,7 @@ type Scenario struct {
 	Q2   int  // COMMIT recipients: 0 all; 1 none; 2 leader only; 3+i node i only
 	V    int  // Byzantine replica: 0 votes; 1 withholds its votes
 	J    int  // Byzantine leader's PRECOMMIT justification: 0 the certificate it just aggregated; 1 a REPLAYED certificate: the first certificate of the first certified block (other round, possibly other results) under the current message header
+	S    int  // 1: the Byzantine node additionally spams every honest node, after every timer generation, with an absurd pacemaker claim and a far-future ELECTION_VOTE (World.Spam)
 	U    int  // 1: the Byzantine node is NOT this round's elected leader but acts as one (mode L) with a REPLAYED election certificate: the +2/3 ELECTION_VOTE certificate of an earlier round of this root height in which it was elected; its PROPOSE follows the elected leader's
 	L    int  // Byzantine leader: 0 honest; 1,2 re-proposes known certificate 0/1 with that certificate as HighQc; 3 proposes a fresh block with no justification; 4 equivocates (X to one half of the honest nodes, X' to the other); 5,6 like 1,2 with the latest certificate; 7 equivocates on the certificate RESULTS only (same block, results R / R'); 8 proposes the first certified block again with OTHER results and no justification
 }
@@ -156,6 +157,9 @@ func (w *World) RunRound(sc Scenario) (ok bool) {
 		}
 		if rc.disabled {
 			return false
+		}
+		if sc.S == 1 {
+			w.Spam(rc.rh, rc.round)
 		}
 	}
 	w.Pending = nil
